@@ -155,7 +155,9 @@ def require_clone(chk, P, types, meaning):
     cl = cloned_types(P)
     for ty in types:
         users = cl.get(ty)
-        if not chk.anchor("clone() of %s is used" % ty, bool(users)):
+        if not users:
+            # nothing is cloned any more (e.g. `.cloned()` became `.copied()`): no rule reads a clone() of this type as a copy
+            chk.ok("EQ", "CLONE:%s:derived" % ty, "no clone() of %s is called: values are moved or bit-copied; %s" % (ty, meaning))
             continue
         ok, why, seen = derived_clone(P, ty)
         chk.require(ok, "EQ", "CLONE:%s:derived" % ty, "derived Clone over %s; %s" % (sorted(seen), meaning), "%s — %s no longer holds" % (why, meaning))
